@@ -14,6 +14,7 @@
 (*           properties fix: never judged) | "fuel" (step budget exhausted)  *)
 (***************************************************************************)
 EXTENDS Values, TLC
+StrFn == INSTANCE Strings
 
 Last(s) == s[Len(s)]
 Front(s) == SubSeq(s, 1, Len(s) - 1)
@@ -246,6 +247,22 @@ Eval(e, st) ==
               IF e.sfx # "" /\ e.sfx # c.t THEN R(Err(0 - 2), st)   \* wrong suffix: rejected statically
               ELSE R(c, st)
     [] e.k = "fcall" -> CallFun(e, st)
+    \* built-in string functions (their definitions are those of Strings.tla): LEN(s), LEFT$(s, n), MID$(s, n, m);
+    \* a numeric argument is converted to INTEGER first; a bad argument is Illegal function call (5)
+    [] e.k = "bcall" ->
+         LET a1 == Eval(e.args[1], st) IN
+         IF IsErr(a1.v) THEN a1
+         ELSE IF ~IsStr(a1.v) THEN R(Err(0), a1.st)
+         ELSE IF e.n = "LEN" THEN R(Val("I", Len(a1.v.v)), a1.st)
+         ELSE LET a2 == Eval(e.args[2], a1.st)
+                  c2 == Cast("I", a2.v)
+              IN IF IsErr(a2.v) THEN a2 ELSE IF IsErr(c2) THEN R(c2, a2.st)
+                 ELSE IF e.n = "LEFT$" THEN
+                      (LET r == StrFn!Left(a1.v.v, c2.v) IN R(IF r.ok THEN Val("$", r.v) ELSE Err(r.c), a2.st))
+                 ELSE LET a3 == Eval(e.args[3], a2.st)
+                          c3 == Cast("I", a3.v)
+                      IN IF IsErr(a3.v) THEN a3 ELSE IF IsErr(c3) THEN R(c3, a3.st)
+                         ELSE LET r == StrFn!Mid(a1.v.v, c2.v, c3.v, TRUE) IN R(IF r.ok THEN Val("$", r.v) ELSE Err(r.c), a3.st)
 
 (***************************************************************************)
 (* Calls.  Arguments are evaluated left to right in the caller.  An          *)
@@ -554,7 +571,14 @@ EvalDims(ds, st, j, acc) ==
                   ELSE IF cb.v < ca.v THEN R(Err(9), b.st)
                   ELSE EvalDims(ds, b.st, j + 1, Append(acc, [lo |-> ca.v, hi |-> cb.v]))
 
+\* inside a STATIC procedure a DIM takes effect once: at later calls the array / record / fixed-length string it
+\* declared is still there, with its contents
+InStaticProc(st) ==
+  Len(st.act) > 1 /\ \E i \in 1..Len(st.prog.subs) : st.prog.subs[i].n = st.act[Len(st.act)].sub /\ st.prog.subs[i].static
+DimKey(s) == IF s.dims = <<>> THEN KeyS(s.n, s.t) ELSE KeyA(s.n, s.t)
 ExecDim(st, s) ==
+  IF InStaticProc(st) /\ DimKey(s) \in DOMAIN st.act[Len(st.act)].vars /\ ~("redim" \in DOMAIN s /\ s.redim)
+  THEN [st EXCEPT !.k = Adv(@)] ELSE
   LET st0 == IF s.shared
              THEN [st EXCEPT !.shared = @ \cup {IF s.dims = <<>> THEN KeyS(s.n, s.t) ELSE KeyA(s.n, s.t)}]
              ELSE st
